@@ -412,8 +412,6 @@ func (s *Netceptor) DialContext(ctx context.Context, node string, service string
 		case <-s.context.Done():
 			_ = qs.Close()
 			_ = pc.Close()
-		case <-doneChan:
-			return
 		}
 	}()
 	conn := &Conn{
